@@ -1,10 +1,19 @@
 import GeomV.C10.GenWrites
+import GeomV.C10.GenBodies
 import GeomV.C10.Ctors
 /-! Regenerated tie for the constructor `LongLat` (/repo/proj): the fields it assigns in the Go source (go/ast
 extraction, `GenWrites.lean`, rewritten on every run) are exactly the model's write set; its closures
 assign nothing; no compound assignment; the SR is passed on only to the modelled callees; no field
 address is taken. -/
+set_option linter.unusedSimpArgs false
 namespace GeomV.C10
 theorem tie_LongLat :
     Gen.ctorWrites.lookup "LongLat" = some (writeSet .longlat, [], [], calleesOf .longlat, []) := by decide
+
+/-- Regenerated tie for the VALUES and CONDITIONS: the slice of `LongLat`'s body that decides its writes and
+its error (extracted by go/ast into `GenBodies.lean` on every run), interpreted by `IR.run`, equals the
+model `initP .longlat` for every SR and every float semantics. -/
+theorem tie_body_LongLat : BodyTie Gen.ctorBodies .longlat := by
+  open IR POps in
+  intro F R _ p; rfl
 end GeomV.C10
